@@ -88,6 +88,7 @@ pub fn safe_execute<E: Engine>(e: &E, case: &E::Case) -> CaseResult {
                     class: class.to_string(),
                     event: None,
                     detail: format!("panic: {msg} at {loc}"),
+                    focus: None,
                 }),
                 None => r.harness.push(format!("panic while executing case: {msg} at {loc}")),
             }
